@@ -28,7 +28,7 @@ def unbox_rule(v):
         return None
     b = v.fields[0]
     while isinstance(b, Agg) and b.ty == "Box":
-        b = b.fields[0].loc.get()
+        b = __import__('mir_exec').box_ref(b).loc.get()
     return b
 
 
